@@ -1013,3 +1013,86 @@ Section Src.
     destruct (Sw i k p Hk Hin) as [q Hq]. exists q. apply (Sc _ _ _ _ Hq).
   Qed.
 End Src.
+
+(* ================================================================ a schedule-level sufficient condition *)
+
+(* all clock readings of the schedule lie in a window shorter than the retention: [t0, t0 + timeout) — whatever the
+   carriers do inside it (sequential, overlapping, idle gaps), no record can be idle for the timeout at any sweep *)
+Section Span.
+  Variable timeout : Z.
+  Variable t0 : Z.
+
+  Definition op_time (o : top) : option Z :=
+    match o with
+    | T_Recv _ _ now | T_WriteTo _ _ now | T_Send _ now | T_Sweep now => Some now
+    | _ => None
+    end.
+  Definition in_window (o : top) : Prop :=
+    match op_time o with Some now => (t0 <= now < t0 + timeout)%Z | None => True end.
+
+  Definition seen_late (c : cmap) : Prop := forall b r, rec_of c b = Some r -> (t0 <= c_seen r)%Z.
+
+  Lemma seen_send_queue a now c : cm_inv c -> (t0 <= now)%Z -> seen_late c -> seen_late (fst (send_queue a now c)).
+  Proof.
+    intros Hinv Hn Hs b r H. destruct (send_queue_rec a now c Hinv) as (_ & _ & Hoth & Hcase).
+    destruct (N.eq_dec b a) as [->|Hne]; [|rewrite (Hoth b Hne) in H; apply (Hs b r H)].
+    destruct (rec_of c a) as [r0|]; destruct Hcase as (_ & Hr & _); rewrite Hr in H; injection H as <-; cbn; exact Hn.
+  Qed.
+
+  Lemma seen_q_send cap q p c : cm_inv c -> seen_late c -> seen_late (fst (q_send cap q p c)).
+  Proof.
+    intros Hinv Hs b r H. unfold q_send in H.
+    destruct (find_qid q (byAge c)) as [i|]; [|apply (Hs b r H)].
+    destruct (nth_error (byAge c) i) as [r0|] eqn:Hi; [|apply (Hs b r H)].
+    destruct (length (c_q r0) <? cap)%nat; [|apply (Hs b r H)]. cbn [fst] in H.
+    rewrite rec_of_set_q in H by auto. destruct (N.eqb_spec (c_addr r0) b) as [<-|Hne]; [|apply (Hs b r H)].
+    injection H as <-. cbn. apply (Hs (c_addr r0) r0). apply rec_of_in; [exact Hinv | eapply nth_error_In; eauto].
+  Qed.
+
+  Lemma seen_q_recv q c : cm_inv c -> seen_late c -> seen_late (fst (q_recv q c)).
+  Proof.
+    intros Hinv Hs b r H. destruct (q_recv_rec_back q c b r Hinv H) as [r0 [H0 [_ E]]]. rewrite E. apply (Hs b r0 H0).
+  Qed.
+
+  Lemma tstep_seen t o : GInv t -> in_window o -> seen_late (tcm t) -> seen_late (tcm (tstep timeout t o)).
+  Proof.
+    intros G Hw Hs. pose proof (g_cm t G) as Gc. destruct o; cbn [in_window op_time] in Hw.
+    - exact Hs.
+    - destruct (nth_error (tcar t) i) as [k|] eqn:Hk; [|cbn [tstep]; rewrite Hk; exact Hs].
+      destruct (k_state k) eqn:Es; [| | |cbn [tstep]; rewrite Hk, Es; exact Hs].
+      all: assert (Hal : k_state k <> K_Dead) by congruence;
+           destruct (trecv_view timeout t i b now k Hk Hal) as (_ & _ & V3 & _ & _); cbn zeta in V3; rewrite V3;
+           match goal with |- context [if ?c then _ else _] => destruct c end; try exact Hs;
+           apply seen_send_queue; [exact Gc | lia | exact Hs].
+    - exact Hs.
+    - cbn [tstep]. pose proof (send_queue_inv (cid_key cid) now (tcm t) Gc) as L1.
+      pose proof (seen_send_queue (cid_key cid) now (tcm t) Gc ltac:(lia) Hs) as H1.
+      destruct (send_queue (cid_key cid) now (tcm t)) as [c1 q0]. cbn [fst] in *.
+      pose proof (seen_q_send QUEUE_SIZE q0 p c1 L1 H1) as H2.
+      destruct (q_send QUEUE_SIZE q0 p c1) as [c2 ok]. exact H2.
+    - cbn [tstep]. destruct (nth_error (tcar t) i) as [k|]; [|exact Hs].
+      destruct (nth_error (theld t) i) as [[q0|]|]; try exact Hs. destruct (k_state k); try exact Hs.
+      pose proof (q_recv_inv q0 (tcm t) Gc) as R1. pose proof (seen_q_recv q0 (tcm t) Gc Hs) as H1.
+      destruct (q_recv q0 (tcm t)) as [c1 r]. cbn [fst] in *.
+      destruct r as [p| |]; [|exact Hs | exact H1].
+      destruct (write_data p); [|exact H1].
+      pose proof (seen_send_queue (cid_key (k_cid k)) now c1 R1 ltac:(lia) H1) as H2.
+      destruct (send_queue (cid_key (k_cid k)) now c1) as [c2 q']. exact H2.
+    - cbn [tstep]. destruct (trecvq t); exact Hs.
+    - cbn [tstep tcm]. intros b r H. destruct (sweep_rec now timeout (tcm t) Gc) as (_ & _ & _ & W4 & _). cbn zeta in W4.
+      destruct (W4 b r H) as [H0 _]. apply (Hs b r H0).
+  Qed.
+
+  Theorem window_is_fresh a : forall ops t, GInv t -> seen_late (tcm t) -> Forall in_window ops ->
+    fresh_from timeout a t ops.
+  Proof.
+    induction ops as [|o ops IH]; intros t G Hs Hf; cbn [fresh_from]; [exact I|].
+    inversion Hf as [|? ? Hw Hf']; subst. split.
+    - destruct o; cbn [stale]; try (intros H0; exact H0). intros [r [Hr He]]. cbn [in_window op_time] in Hw.
+      specialize (Hs a r Hr). unfold expired in He. rewrite Z.geb_leb in He. apply Z.leb_le in He. lia.
+    - apply IH; [apply tstep_ginv; exact G | apply tstep_seen; assumption | exact Hf'].
+  Qed.
+
+  Corollary window_is_fresh_from_start a ops : Forall in_window ops -> fresh_from timeout a tinit ops.
+  Proof. intros H. apply window_is_fresh; [apply ginv_init | intros b r Hr; discriminate | exact H]. Qed.
+End Span.
